@@ -34,7 +34,7 @@ SM(W, C, H, T, D, s) ==
   /\ DOMAIN T = DOMAIN s.fstab
   /\ \A p \in DOMAIN T : T[p].h = s.fstab[p].h /\ T[p].x = s.fstab[p].x /\ RankIn(S0, T[p].m) = RankIn(S1, s.fstab[p].m)
   /\ D.root = s.rdir.root /\ D.cache = s.rdir.cache /\ D.hist = s.rdir.hist /\ D.tab = s.rdir.tab
-  /\ D.htorn = SeqSet(s.rdir.htorn)
+  /\ D.htorn = SeqSet(s.rdir.htorn) /\ D.nodir = SeqSet(s.rdir.nodir)
 
 MaxStamp(s) == LET S == {s.ws[k].m : k \in DOMAIN s.ws} \cup {s.cache[k].m : k \in DOMAIN s.cache} \cup {s.fstab[k].m : k \in DOMAIN s.fstab} \cup {0}
                IN CHOOSE m \in S : \A n \in S : n <= m
@@ -43,7 +43,7 @@ LoadDisk(s) ==
   /\ cache' = [n \in DOMAIN s.cache |-> [c |-> s.cache[n].c, m |-> s.cache[n].m, x |-> s.cache[n].x]]
   /\ hist' = [rid \in DOMAIN s.hist |-> [sh \in DOMAIN s.hist[rid] |-> s.hist[rid][sh]]]
   /\ fstab' = [p \in DOMAIN s.fstab |-> [h |-> s.fstab[p].h, m |-> s.fstab[p].m, x |-> s.fstab[p].x]]
-  /\ rdir' = [root |-> s.rdir.root, cache |-> s.rdir.cache, hist |-> s.rdir.hist, tab |-> s.rdir.tab, htorn |-> SeqSet(s.rdir.htorn)]
+  /\ rdir' = [root |-> s.rdir.root, cache |-> s.rdir.cache, hist |-> s.rdir.hist, tab |-> s.rdir.tab, htorn |-> SeqSet(s.rdir.htorn), nodir |-> SeqSet(s.rdir.nodir)]
   /\ clock' = MaxStamp(s) + 1
 
 (* ---------------- one disjunct per kind of logged event --------------------- *)
@@ -78,6 +78,8 @@ TUser ==
      \/ Is("env") /\ ChangeEnv(E.v)
      \/ Is("mv") /\ Move(E.p, E.q)
      \/ Is("corrupt") /\ Corrupt(E.what, E.rid)
+     \/ Is("rmdir") /\ RmDir(E.d, SeqSet(E.ps))
+     \/ Is("mkdir") /\ MkDir(E.d, SeqSet(E.ps))
      \/ Is("build") /\ PreMatch /\ StartBuildWith(E.g, fstab, IF Has(E, "serial") THEN [serial |-> E.serial] ELSE EmptyF)
      \/ Is("clean") /\ PreMatch /\ StartClean(E.g)
 
@@ -118,7 +120,7 @@ LastRec == Rec[l - 1]
 T_C05_ThreadPanics == (l > 1 /\ LastRec.a = "ret") => LastRec.panics = <<>>
 T_C08_NoOverwrite == (l > 1 /\ LastRec.a = "ret" /\ Distinct) => LastRec.overw = <<>>
 T_C09_Touched == (l > 1 /\ LastRec.a = "ret") => SeqSet(LastRec.touched) \subseteq Scope
-T_C18_Twin == (l > 1 /\ LastRec.a = "ret" /\ Has(LastRec, "twin")) =>
+T_C18_Twin == (l > 1 /\ LastRec.a = "ret" /\ Has(LastRec, "twin") /\ ~g.dirgone) =>     \* (the two runs of a history in which a directory was removed may drift apart, see C06_SameAsSerial)
                  /\ LastRec.twin.verdict = LastRec.verdict
                  /\ SameFn(LastRec.twin.ws, WsContents)
 
@@ -132,7 +134,7 @@ AllProps ==
   /\ Chk("C06_SameAsSerial", C06_SameAsSerial)
   /\ Chk("C07_ContentAddressed", C07_ContentAddressed)
   /\ Chk("C08_NothingLost", C08_NothingLost) /\ Chk("C08_NoOverwrite", T_C08_NoOverwrite)
-  /\ Chk("C09_OnlyScopeTouched", C09_OnlyScopeTouched) /\ Chk("C09_Touched", T_C09_Touched)
+  /\ Chk("C09_OnlyScopeTouched", C09_OnlyScopeTouched) /\ Chk("C09_Touched", T_C09_Touched) /\ Chk("C09_NoDirMade", C09_NoDirMade)
   /\ Chk("C10_CleanMovesToCache", C10_CleanMovesToCache) /\ Chk("C10_BuildBringsBack", C10_BuildBringsBack)
   /\ Chk("C11_CrashStateSane", C11_CrashStateSane) /\ Chk("C11_Recovers", C11_Recovers)
   /\ Chk("C12_InvalidRejected", C12_InvalidRejected) /\ Chk("C16_DamagedRejected", C16_DamagedRejected)
